@@ -124,6 +124,13 @@ func TestSchedRefusedEnum(t *testing.T) {
 		bound = 4
 	}
 	bad := 0
+	// a bound in schedules per work unit keeps the tier inside its time; units cut off by it are counted
+	race.LeafCap = 3000
+	defer func() {
+		if race.Truncated > 0 {
+			rec.ClassN("sched_enum_work_units_cut_off_at_3000_schedules", race.Truncated)
+		}
+	}()
 	for ci, cs := range schedEnumCases {
 		cs.Seed = uint64(ci)
 		for sub := 0; sub < 8; sub++ {
